@@ -7,7 +7,6 @@ package main
 
 import (
 	"encoding/json"
-	"fmt"
 	"regexp"
 	"sort"
 	"strings"
@@ -45,17 +44,72 @@ func collectESlots(v any, path string, out *[]eslot) {
 	}
 }
 
-// members whose value identifies something (changing them changes the graph the oracle compares, or is what the
-// legacy reader validates itself): left alone
-var edgeSkip = map[string]bool{"uuid": true, "exit_uuid": true, "destination": true, "entry": true, "destination_type": true}
+// The members the legacy -> 13 conversion reads that are numeric or optional in the legacy format (or arrays the legacy
+// editor could leave empty), with the edge values each can take.  Members that identify or classify something (uuid,
+// destination, type, ruleset_type, flow_type, test.type, flow / channel / field / group references) are not in the table:
+// the legacy reader does not validate them and a definition without them was never a valid legacy definition.
+var absent = struct{}{}
 
-// edgeTweak changes one member to an edge value and says what it did
+var longText = strings.Repeat("x", 70)
+var numberEdges = []any{0, -1, 1.5, 1000000000, -1000000000, absent, nil}
+
+var edgeTable = map[string][]any{
+	"rule_sets.rules":                        {[]any{}, absent, nil},
+	"rule_sets.rules.category":               {map[string]any{}, "", absent, map[string]any{"eng": ""}, map[string]any{"fra": "Autre"}, map[string]any{"eng": longText}},
+	"rule_sets.rules.category.eng":           {"", " ", longText, "Ça va? 日本"},
+	"rule_sets.rules.destination_type":       {absent, nil, "R", "A"},
+	"rule_sets.rules.test.minutes":           numberEdges,
+	"rule_sets.rules.test.test":              {"", absent, map[string]any{}, map[string]any{"eng": ""}},
+	"rule_sets.rules.test.min":               {"", absent},
+	"rule_sets.rules.test.max":               {"", absent},
+	"rule_sets.config":                       {map[string]any{}, absent, nil},
+	"rule_sets.config.webhook":               {"", absent},
+	"rule_sets.config.webhook_action":        {"", absent, nil, "get"},
+	"rule_sets.config.webhook_headers":       {[]any{}, absent, nil},
+	"rule_sets.config.webhook_headers.name":  {"", absent},
+	"rule_sets.config.webhook_headers.value": {"", absent},
+	"rule_sets.config.field_index":           numberEdges,
+	"rule_sets.config.field_delimiter":       {"", absent},
+	"rule_sets.config.resthook":              {"", absent},
+	"rule_sets.label":                        {"", absent, " ", longText, "Age?", "What's your name", "Réponse 1"},
+	"rule_sets.operand":                      {"", absent},
+	"rule_sets.finished_key":                 {absent, "", nil},
+	"rule_sets.x":                            numberEdges,
+	"rule_sets.y":                            numberEdges,
+	"action_sets.x":                          numberEdges,
+	"action_sets.y":                          numberEdges,
+	"action_sets.actions":                    {[]any{}, absent, nil},
+	"action_sets.actions.quick_replies":      {[]any{}, absent, nil, []any{map[string]any{}}, []any{map[string]any{"eng": ""}}},
+	"action_sets.actions.media":              {map[string]any{}, absent, nil, map[string]any{"eng": ""}},
+	"action_sets.actions.send_all":           {true, false, absent},
+	"action_sets.actions.contacts":           {[]any{}, absent},
+	"action_sets.actions.groups":             {[]any{}, absent},
+	"action_sets.actions.variables":          {[]any{}, absent},
+	"action_sets.actions.labels":             {[]any{}, absent},
+	"action_sets.actions.value":              {"", absent},
+	"action_sets.actions.name":               {"", absent},
+	"action_sets.actions.recording":          {nil, absent, map[string]any{}},
+	"action_sets.actions.msg.fra":            {"", absent},
+	"metadata.expires":                       numberEdges,
+	"metadata.revision":                      numberEdges,
+	"metadata.name":                          {"", absent, longText},
+	"metadata.saved_on":                      {absent, nil, ""},
+	"version":                                {absent, nil, "", 0, "11.12", 11.12},
+	"entry":                                  {absent, nil, ""},
+	"flow_type":                              {absent, ""},
+}
+
+// edgeTweak changes one member of the table to one of its edge values and says what it did
 func edgeTweak(r *hx.Rand, flow map[string]any) string {
 	var slots []eslot
 	collectESlots(flow, "", &slots)
+	// also members that are absent but could be there: offer them on every object of the right kind
 	var cands []eslot
 	for _, s := range slots {
-		if !edgeSkip[s.key] {
+		if _, ok := edgeTable[s.path]; ok {
+			if s.path == "flow_type" && str(flow["flow_type"]) == "V" {
+				continue // a voice flow without its type is a messaging flow with voice actions: never a valid definition
+			}
 			cands = append(cands, s)
 		}
 	}
@@ -63,45 +117,25 @@ func edgeTweak(r *hx.Rand, flow map[string]any) string {
 		return "none"
 	}
 	s := cands[r.Intn(len(cands))]
-	if r.Chance(1, 6) {
+	nv := hx.Pick(r, edgeTable[s.path])
+	if nv == absent {
 		delete(s.parent, s.key)
 		return s.path + ":removed"
 	}
-	switch v := s.parent[s.key].(type) {
-	case string:
-		nv := hx.Pick(r, []string{"", " ", "?", strings.Repeat("x", 70), "@", "0"})
-		s.parent[s.key] = nv
-		return fmt.Sprintf("%s:text=%q", s.path, truncateLabel(nv))
-	case json.Number, float64, int:
-		_ = v
-		nv := hx.Pick(r, []any{0, -1, 1.5, 1000000000, -1000000000})
-		s.parent[s.key] = nv
-		return fmt.Sprintf("%s:number=%v", s.path, nv)
-	case []any:
-		s.parent[s.key] = []any{}
-		return s.path + ":empty-array"
-	case map[string]any:
-		s.parent[s.key] = map[string]any{}
-		return s.path + ":empty-object"
-	case bool:
-		s.parent[s.key] = !v
-		return s.path + ":flipped"
-	case nil:
-		s.parent[s.key] = hx.Pick(r, []any{"", 0, []any{}, map[string]any{}})
-		return s.path + ":null-replaced"
-	}
-	return "none"
+	s.parent[s.key] = deepCopy(nv)
+	b, _ := json.Marshal(nv)
+	return s.path + ":=" + truncateLabel(string(b))
 }
 
 func truncateLabel(s string) string {
-	if len(s) > 8 {
-		return s[:8] + "..."
+	if len(s) > 16 {
+		return s[:16] + "..."
 	}
 	return s
 }
 
 // timeoutRuleSet: a wait rule set with an "Other" rule and a timeout rule whose minutes take an edge value
-func timeoutRuleSet(g *gen, r *hx.Rand, dests []string) (map[string]any, string) {
+func timeoutRuleSet(g *gen, r *hx.Rand, dests []string, base string) (map[string]any, string) {
 	test := map[string]any{"type": "timeout"}
 	label := "missing"
 	switch k := r.Intn(8); k {
@@ -137,8 +171,8 @@ func timeoutRuleSet(g *gen, r *hx.Rand, dests []string) (map[string]any, string)
 	rs := map[string]any{"uuid": g.uuid(), "ruleset_type": hx.Pick(r, []string{"wait_message", "wait_digits", "wait_digit", "wait_photo"}),
 		"label": "Response", "operand": "@step.value", "x": 10, "y": r.Intn(2000), "config": map[string]any{}, "finished_key": nil,
 		"rules": []any{
-			map[string]any{"uuid": g.uuid(), "test": map[string]any{"type": "true"}, "category": map[string]any{"eng": "All Responses"}, "destination": dest(), "destination_type": nil},
-			map[string]any{"uuid": g.uuid(), "test": test, "category": map[string]any{"eng": "No Response"}, "destination": dest(), "destination_type": nil},
+			map[string]any{"uuid": g.uuid(), "test": map[string]any{"type": "true"}, "category": map[string]any{base: "All Responses"}, "destination": dest(), "destination_type": nil},
+			map[string]any{"uuid": g.uuid(), "test": test, "category": map[string]any{base: "No Response"}, "destination": dest(), "destination_type": nil},
 		}}
 	return rs, "rule_sets.rules.test.minutes:timeout=" + label
 }
@@ -153,7 +187,11 @@ func genLegacyEdge(r *hx.Rand, p *legacyPools) (*ldef, []string) {
 	var how []string
 	g := &gen{r: r}
 	if r.Chance(1, 3) {
-		rs, h := timeoutRuleSet(g, r, ld.Nodes)
+		base, _ := f["base_language"].(string)
+		if base == "" {
+			base = "base"
+		}
+		rs, h := timeoutRuleSet(g, r, ld.Nodes, base)
 		arr, _ := f["rule_sets"].([]any)
 		f["rule_sets"] = append(arr, rs)
 		how = append(how, h)
